@@ -198,6 +198,7 @@ func (fr *Frame) specEnvAt(cur *State, where string, pos token.Pos) *SpecEnv {
 	}
 	env.locals = fr.localsByName(pos)
 	env.loopHeads = fr.loopHeads
+	env.loopEntries = fr.loopEntries
 	for i, p := range fr.fn.Params {
 		env.oldVars[p.Name()] = fr.params[i]
 	}
@@ -434,6 +435,10 @@ func (vc *FuncVC) writesOf(from, to string, refs *[]Term, depth int) bool {
 func (fr *Frame) enterLoop(lr *loopRun, stIn *State, reach Term) *State {
 	vc := fr.vc
 	ord := lr.li.ord
+	if fr.loopEntries == nil {
+		fr.loopEntries = map[int]*State{}
+	}
+	fr.loopEntries[ord] = stIn.clone()
 	// invariant on entry
 	if lr.spec != nil {
 		env := fr.specEnvAt(stIn, fmt.Sprintf("loop %d invariant", ord), lr.li.minPos)
@@ -885,6 +890,21 @@ func (fr *Frame) unop(x *ssa.UnOp, st *State, reach Term) {
 			return
 		}
 		addr := fr.val(x.X, st)
+		if isAggregate(x.Type()) {
+			// a load whose value is never used (e.g. the array copy of `range arr`)
+			used := false
+			for _, r := range *x.Referrers() {
+				if _, dbg := r.(*ssa.DebugRef); !dbg {
+					used = true
+				}
+			}
+			if !used {
+				if p, ok := addr.(*FV); ok {
+					fr.nilCheck(p.L[0], reach, "load through nil pointer")
+				}
+				return
+			}
+		}
 		v := fr.load(addr, x.Type(), st, reach)
 		// name the loaded leaves and assume the type invariant of memory contents
 		if fv, ok := v.(*FV); ok {
@@ -1026,6 +1046,20 @@ func (fr *Frame) binop(x *ssa.BinOp, st *State, reach Term) {
 					return
 				}
 			}
+			// (x << c) | y with y < 2^c semantically: the disjointness becomes a
+			// side obligation and the result is the sum
+			if _, sg, _ := intInfo(xt); !sg && (x.Op == token.OR || x.Op == token.XOR) {
+				if lx > 0 && lx < 63 {
+					fr.oblige("bits", reach, app(SBool, "<", tb, intLit(new(bigInt).Lsh(bigOne, uint(lx)))), "operands of | occupy disjoint bits")
+					fr.vals[x] = scalar(x.Type(), vc.sc.Def("t", enc.add(ta, tb)))
+					return
+				}
+				if ly > 0 && ly < 63 {
+					fr.oblige("bits", reach, app(SBool, "<", ta, intLit(new(bigInt).Lsh(bigOne, uint(ly)))), "operands of | occupy disjoint bits")
+					fr.vals[x] = scalar(x.Type(), vc.sc.Def("t", enc.add(ta, tb)))
+					return
+				}
+			}
 		}
 		fr.vals[x] = scalar(x.Type(), vc.sc.Def("t", enc.bitop(x.Op, ta, tb, xt)))
 	case token.SHL, token.SHR:
@@ -1148,6 +1182,10 @@ func (fr *Frame) indexAddr(x *ssa.IndexAddr, st *State, reach Term) {
 	}
 	fr.oblige("index", reach, mkAnd(enc.idxLe(enc.idxLit(0), i), enc.idxLt(i, ln)), "index in range")
 	idx := vc.sc.Def("ix", enc.add(off, i))
+	if ti, ok := vc.tables[b.S]; ok && !isAggregate(et) {
+		fr.vals[x] = &LV{T: x.Type(), Kind: LTable, Ref: ti.term, Idx: idx, ElemT: et}
+		return
+	}
 	if isAggregate(et) {
 		fr.vals[x] = scalar(x.Type(), vc.elemRef(b, idx))
 	} else {
@@ -1320,6 +1358,14 @@ func (fr *Frame) readPath(v Val, path []pathElem) Val {
 			v = x.F[pe.field]
 		case *AV:
 			at := x.T.Underlying().(*types.Array)
+			if isAggregate(at.Elem()) {
+				inner := &AV{T: at.Elem()}
+				for _, l := range x.L {
+					inner.L = append(inner.L, mkSelect(l, pe.idx))
+				}
+				v = inner
+				continue
+			}
 			out := &FV{T: at.Elem()}
 			for _, l := range x.L {
 				out.L = append(out.L, mkSelect(l, pe.idx))
@@ -1344,7 +1390,27 @@ func (fr *Frame) updatePath(v Val, path []pathElem, nv Val) Val {
 		return out
 	case *AV:
 		if len(path) != 1 {
-			fr.vc.unsupportedf("nested path below an array element")
+			at := x.T.Underlying().(*types.Array)
+			inner := &AV{T: at.Elem()}
+			for _, l := range x.L {
+				inner.L = append(inner.L, mkSelect(l, pe.idx))
+			}
+			ni, ok := fr.updatePath(inner, path[1:], nv).(*AV)
+			if !ok {
+				fr.vc.unsupportedf("nested path below an array element")
+			}
+			out := &AV{T: x.T}
+			for i, l := range x.L {
+				out.L = append(out.L, fr.vc.sc.Def("arr", mkStore(l, pe.idx, ni.L[i])))
+			}
+			return out
+		}
+		if iv, ok := nv.(*AV); ok {
+			out := &AV{T: x.T}
+			for i, l := range x.L {
+				out.L = append(out.L, fr.vc.sc.Def("arr", mkStore(l, pe.idx, iv.L[i])))
+			}
+			return out
 		}
 		fv := nv.(*FV)
 		out := &AV{T: x.T}
@@ -1496,3 +1562,5 @@ func calleeShortName(c *ssa.CallCommon) string {
 	}
 	return c.Value.Name()
 }
+
+var bigOne = new(bigInt).SetInt64(1)
